@@ -44,28 +44,28 @@ def cursor_up_str(n:int=1) -> str:
     Parameters: n - the number of lines to move up.
     Returns a string which will move the cursor up a number of lines if printed to stdout.
     '''
-    return ansi_control_sequence_introducer + str(n) + 'A'
+    return ansi_control_sequence_introducer + format(n, 'd') + 'A'
 
 def cursor_down_str(n:int=1) -> str:
     '''
     Parameters: n - the number of lines to move down.
     Returns a string which will move the cursor down a number of lines if printed to stdout.
     '''
-    return ansi_control_sequence_introducer + str(n) + 'B'
+    return ansi_control_sequence_introducer + format(n, 'd') + 'B'
 
 def cursor_forward_str(n:int=1) -> str:
     '''
     Parameters: n - the number of lines to move forward.
     Returns a string which will move the cursor forward a number of lines if printed to stdout.
     '''
-    return ansi_control_sequence_introducer + str(n) + 'C'
+    return ansi_control_sequence_introducer + format(n, 'd') + 'C'
 
 def cursor_backward_str(n:int=1) -> str:
     '''
     Parameters: n - the number of lines to move backward.
     Returns a string which will move the cursor backward a number of lines if printed to stdout.
     '''
-    return ansi_control_sequence_introducer + str(n) + 'D'
+    return ansi_control_sequence_introducer + format(n, 'd') + 'D'
 
 cursor_back_str = cursor_backward_str
 
@@ -74,21 +74,21 @@ def cursor_next_line_str(n:int=1) -> str:
     Parameters: n - the number of lines to move.
     Returns a string which will move the cursor a number of lines next if printed to stdout.
     '''
-    return ansi_control_sequence_introducer + str(n) + 'E'
+    return ansi_control_sequence_introducer + format(n, 'd') + 'E'
 
 def cursor_previous_line_str(n:int=1) -> str:
     '''
     Parameters: n - the number of lines to move.
     Returns a string which will move the cursor a number of lines previously if printed to stdout.
     '''
-    return ansi_control_sequence_introducer + str(n) + 'F'
+    return ansi_control_sequence_introducer + format(n, 'd') + 'F'
 
 def cursor_horizontal_absolute_str(n:int) -> str:
     '''
     Parameters: n - the absolute horizontal (X) position to move the cursor to.
     Returns a string which will move the cursor to a horizontal position if printed to stdout.
     '''
-    return ansi_control_sequence_introducer + str(n) + 'G'
+    return ansi_control_sequence_introducer + format(n, 'd') + 'G'
 
 def cursor_position_str(row:int, column:int) -> str:
     '''
@@ -97,7 +97,7 @@ def cursor_position_str(row:int, column:int) -> str:
     column - the absolute vertical (Y) position to move the cursor to.
     Returns a string which will move the cursor to an absolute position if printed to stdout.
     '''
-    return ansi_control_sequence_introducer + str(row) + ';' + str(column) + 'H'
+    return ansi_control_sequence_introducer + format(row, 'd') + ';' + format(column, 'd') + 'H'
 
 def erase_in_display_str(n:int) -> str:
     '''
@@ -108,7 +108,7 @@ def erase_in_display_str(n:int) -> str:
         3: clear entire screen and delete all lines saved in the scrollback buffer
     Returns a string which will perform a clear function if printed to stdout.
     '''
-    return ansi_control_sequence_introducer + str(n) + 'J'
+    return ansi_control_sequence_introducer + format(n, 'd') + 'J'
 
 def erase_in_line_str(n:int) -> str:
     '''
@@ -118,21 +118,21 @@ def erase_in_line_str(n:int) -> str:
         2: clear entire line
     Returns a string which will perform a clear function if printed to stdout. Cursor position does not change.
     '''
-    return ansi_control_sequence_introducer + str(n) + 'K'
+    return ansi_control_sequence_introducer + format(n, 'd') + 'K'
 
 def scroll_up_str(n:int) -> str:
     '''
     Parameters: n - number of lines to scroll up.
     Returns a string which will scroll the whole page up when printed to stdout.
     '''
-    return ansi_control_sequence_introducer + str(n) + 'S'
+    return ansi_control_sequence_introducer + format(n, 'd') + 'S'
 
 def scroll_down_str(n:int) -> str:
     '''
     Parameters: n - number of lines to scroll down.
     Returns a string which will scroll the whole page down when printed to stdout.
     '''
-    return ansi_control_sequence_introducer + str(n) + 'T'
+    return ansi_control_sequence_introducer + format(n, 'd') + 'T'
 
 class AnsiString:
     '''
